@@ -31,6 +31,11 @@ class NumOps (N : Type) where
   /-- `str::parse::<f64>` -/
   parse : Str → Option N
 
+/-- Bit-pattern text of a number, for the line protocol only (never used in theorems). -/
+class NumBits (N : Type) where
+  bitsHex : N → Str
+  ofBitsHex? : Str → Option N
+
 namespace NumOps
 variable {N : Type} [NumOps N]
 
